@@ -14,6 +14,7 @@ Definition cimp_run_sha := ExportImport.cimp_run sha256.
 Definition prune_forest_sha := PruneAlgo.prune_forest sha256.
 Definition prune_forest_disks_sha := PruneAlgo.prune_forest_disks sha256.
 Definition readable_sha := PruneAlgo.readable sha256.
+Definition load_version_sha := PruneAlgo.load_version sha256.
 Definition fstep_sha := FastLife.fstep sha256.
 Definition commit_node_ops_sha := Store.commit_node_ops sha256.
 
@@ -27,7 +28,7 @@ Extraction "model.ml" m_step m_init bcmp sha256 uvarint_enc uvarint_dec varint_e
   Codec.root_ref_value
   Diff.extract Diff.net Store.expected_store Store.expected_fast commit_ops_sha
   get_proof_sha Ics23.marshal_commitment_proof VersionFacts.in_contractb
-  prune_forest_sha prune_forest_disks_sha readable_sha PruneAlgo.phys_of PruneAlgo.rekeyed
+  prune_forest_sha prune_forest_disks_sha readable_sha load_version_sha PruneAlgo.phys_of PruneAlgo.rekeyed
   fstep_sha FastLife.finit Discover.discovered_available
   commit_node_ops_sha Crash.recover Crash.image Store.rollback_ops Store.rebuild_ops Store.apply_ops
   DbImage.encode_image DbImage.decode_image.
